@@ -6,8 +6,8 @@
 (* it from its address, Emit prints it as a REPLAY record (per file: the   *)
 (* import lines, the definitions as AST, the text of every reference to a  *)
 (* global of another file) together with what the specification expects    *)
-(* (accepted or rejected, module order, printed lines).  ConfigInvL holds  *)
-(* in every state.                                                         *)
+(* (module order, printed lines, whether the verdict is free).             *)
+(* ConfigInvL holds in every state.                                        *)
 (***************************************************************************)
 EXTENDS SyltLayers, Json, IOUtils
 
@@ -19,13 +19,15 @@ vars == <<d, pc>>
 
 NV == IF "NV" \in DOMAIN IOEnv THEN atoi(IOEnv.NV) ELSE 2          \* variants per primary
 Seed == IF "SEED" \in DOMAIN IOEnv THEN atoi(IOEnv.SEED) ELSE 1
-Only == IF "ONLY" \in DOMAIN IOEnv THEN IOEnv.ONLY ELSE ""        \* just the configuration ONLY_N, ONLY_W (replays)
+Only == IF "ONLY" \in DOMAIN IOEnv THEN IOEnv.ONLY ELSE ""        \* just the configuration ONLY_N, ONLY_W in every order
+                                                                  \* of the main file's imports (replays)
 
 ASSUME PathsOK
 ASSUME PrintT(<<"INFO", ToJson([tree |-> Tree, primaries |-> Cardinality(PrimariesL), variants |-> NVariantsL,
                                 spellings |-> <<>>])>>)
 
-Ids == IF Only = "" THEN UniverseIdsL(NV, Seed) ELSE {<<atoi(IOEnv.ONLY_N), atoi(IOEnv.ONLY_W)>>}
+Ids == IF Only = "" THEN UniverseIdsL(NV, Seed)
+       ELSE {<<n, atoi(IOEnv.ONLY_W)>> : n \in {n \in PrimariesL : n % NBaseL = atoi(IOEnv.ONLY_N) % NBaseL}}
 
 Init == /\ pc = "made"
         /\ \E id \in Ids : d = DeriveL(id[1], id[2])
@@ -37,8 +39,7 @@ EmitRecL(c) ==
                    refs |-> [r \in DOMAIN c.files[q].refs |->
                                [b |-> c.files[q].refs[r].b, ns |-> JoinDot(c.files[q].refs[r].ns, 1), name |-> c.files[q].refs[r].name]],
                    imports_last |-> c.files[q].imports_last]],
-     load |-> c.load, accepted |-> c.accepted, expect |-> c.expect,
-     late |-> [q \in 1..Cardinality(c.fails) |-> "x"],
+     load |-> c.load, free |-> c.free, expect |-> c.expect, base |-> c.n % NBaseL,
      boots |-> c.boots, smode |-> c.smode, extras |-> c.extras, gofrom |-> c.gofrom, rev |-> c.rev, a1 |-> c.a1, a2 |-> c.a2,
      layout |-> c.layout, startdep |-> c.startdep, cycle |-> c.cycle, multi |-> c.multi,
      nhops |-> Cardinality(c.hops)]
